@@ -24,6 +24,11 @@ pub enum SOp {
     /// arm a rendezvous at the bucket CAS for buckets of `len` entries: the next `parties` threads that
     /// are about to install such a bucket wait for each other (relaxed polling) and then race
     GateCas { len: u32, parties: u8 },
+    /// push one item and tell its index to slot `slot` through a relaxed store (no synchronisation of its own)
+    PushTell { slot: u8 },
+    /// wait (relaxed polling) for an index in slot `slot`, then read that item through the unchecked getter
+    /// (nucleo: `Injector::get_unchecked`; raw vector: the checked getter)
+    GetUncheckedTold { slot: u8 },
 }
 
 #[derive(Clone, Debug, serde::Serialize, serde::Deserialize, Hash)]
